@@ -8,7 +8,8 @@ From Falco Require Import Base.Bytes Gen.TokenTypes Model.ParseKinds Gen.ParserT
   Model.ParseBase Model.Ast Model.ParseLit Model.ParseExpr Model.ParseStmt Model.ParseDecl Model.Yield
   Proofs.ParseTables Proofs.ParseExprYield Proofs.ParseExprTotal Proofs.ParsePratt Proofs.ParseRoundtrip
   Proofs.ParseLitFacts Proofs.ParseStmtYield Proofs.ParseDeclYield Proofs.ParseStmtTotal Proofs.ParseDeclTotal Proofs.ParseLocated Proofs.ParseLocated2 Proofs.ParseProgram Proofs.ParseProgram2
-  Proofs.ParseProgram3 Proofs.ParseProgram4 Proofs.ParseProgram5.
+  Proofs.ParseProgram3 Proofs.ParseProgram4 Proofs.ParseProgram5 Proofs.ParseProgram6
+  Gen.ParserDispatch Proofs.ParseDispatch Model.ParseComments Proofs.ParseCommentsProofs.
 Import ListNotations.
 Local Open Scope N_scope.
 
@@ -172,6 +173,79 @@ Theorem C02_program_roundtrip :
   forall fok ds, cprog fok ds -> parse_vcl fok (flat_map ystmt ds) = POK (Vcl ds false).
 Proof. exact program_roundtrip. Qed.
 
+(* Snippets (ParseSnippetVCL): the flattened tokens of a canonical statement list, followed by the EOF
+   token, parse back to exactly that list.  [csnip]: every statement canonical ([cstmt], which since
+   round 5 lets `break;` / `fallthrough;` stand anywhere in a case body, not only last - the same
+   holds for C02_program_roundtrip), the list ends with the EOF token.  Witness: ex_snippet (a
+   top-level switch with a mid-body break), Proofs/ParseProgram6.v. *)
+Theorem C02_snippet_roundtrip :
+  forall fok ss, csnip fok ss -> parse_snippet fok (flat_map ystmt ss) = POK (Vcl ss true).
+Proof. exact snippet_roundtrip. Qed.
+
+(* `-9223372036854775808`: the INT literal 2^63 under a unary minus is the one integer literal that is
+   only valid there; the prefix parser hands the sign to the literal conversion.  Witness: ex_int_min. *)
+Theorem C02_int_min_roundtrip :
+  forall fok op t p pv rest,
+    typ op = T_MINUS -> typ t = T_INT ->
+    conv_integer true (lit t) = Some (- Z.of_N two63)%Z ->
+    stops 8 rest = true -> stops p rest = true ->
+    parse_expr fok p (St pv (op :: t :: rest))
+    = POK (EPrefix op (EInt t (- Z.of_N two63)%Z), St (Some op) (t :: rest)).
+Proof. exact int_min_roundtrip. Qed.
+
+(* T tie of the first-token dispatch: Gen/ParserDispatch.v is regenerated on every run from the switch
+   statements of ParseStatement, ParseSnippetVCL and Parse; for EVERY token type the model runs the
+   function standing for the method the Go switch selects ([run_method]), and the default error for
+   the token types without a case.  Witness: ex_dispatch_set. *)
+Theorem C02_statement_dispatch :
+  forall fok n st0,
+    pstmt fok (S n) st0 = dispatch fok statement_dispatch n (err_cur E_unexpected (next st0)) (next st0).
+Proof. exact pstmt_dispatch. Qed.
+Theorem C02_snippet_dispatch :
+  forall fok st,
+    snippet_stmt fok st =
+    pbind (dispatch fok snippet_dispatch (stmt_fuel st) (err_peek E_unexpected st) st)
+          (fun '(s, st1) => POK (s, next st1)).
+Proof. exact snippet_stmt_dispatch. Qed.
+Theorem C02_declaration_dispatch :
+  forall fok st,
+    parse_decl fok st =
+    pbind (dispatch fok declaration_dispatch 0 (err_cur E_unexpected st) st)
+          (fun '(d, st1) => POK (d, next st1)).
+Proof. exact parse_decl_dispatch. Qed.
+
+(* Comment attachment is a function of the token stream (Parser.ReadPeek, Model/ParseComments.v, over
+   the RAW token stream of the lexer).  [read_peek_stream] gives every token that becomes curToken its
+   Leading comments (each with PrefixedLineFeed / PreviousEmptyLines), its Nest and its
+   PreviousEmptyLines.
+   - its token component is the significant stream the grammar model parses;
+   - Nest is the brace level of that stream;
+   - every comment token ReadPeek sees is attached exactly once, in source order;
+   - stated for EVERY comment token of the source this is FALSE (a comment inside `pragma ... ;`):
+     [_refuted], witness raw_pragma_comment, replayed on the real parser by checks/c02.py; it holds
+     for sources without pragma;
+   - Parser.Trailing() only splits a Leading list.
+   Witnesses: ex_read_peek, ex_attached, ex_split_trailing (Proofs/ParseCommentsProofs.v). *)
+Theorem C02_read_peek_tokens :
+  forall raw, map dtk (read_peek_stream raw) = signif false raw.
+Proof. exact (fun raw => decorate_tokens raw 0%Z rp0 false). Qed.
+Theorem C02_read_peek_nest :
+  forall raw, map dnest (read_peek_stream raw) = nests 0 (signif false raw).
+Proof. exact (fun raw => decorate_nest raw 0%Z rp0 false). Qed.
+Theorem C02_comments_attached_once_in_order_partial :
+  forall raw, has_eof raw = true -> attached (read_peek_stream raw) = visible_comments false raw.
+Proof. exact comments_attached_once_in_order. Qed.
+Theorem C02_comments_attached_once_in_order_nopragma :
+  forall raw, has_eof raw = true -> has_pragma raw = false ->
+    attached (read_peek_stream raw) = all_comments raw.
+Proof. exact comments_attached_once_in_order_nopragma. Qed.
+Theorem C02_comments_attached_once_in_order_refuted :
+  exists raw, has_eof raw = true /\ attached (read_peek_stream raw) <> all_comments raw.
+Proof. exact comments_attached_once_in_order_refuted. Qed.
+Theorem C02_trailing_split :
+  forall l, fst (split_trailing l) ++ snd (split_trailing l) = l.
+Proof. exact split_trailing_app. Qed.
+
 Print Assumptions C02_tables_are_documented.
 Print Assumptions C02_parse_expr_yield.
 Print Assumptions C02_parse_stmt_yield.
@@ -198,3 +272,14 @@ Print Assumptions C02_parse_vcl_error_located.
 Print Assumptions C02_parse_snippet_error_located.
 Print Assumptions C02_parse_expression_error_located.
 Print Assumptions C02_program_roundtrip.
+Print Assumptions C02_snippet_roundtrip.
+Print Assumptions C02_int_min_roundtrip.
+Print Assumptions C02_statement_dispatch.
+Print Assumptions C02_snippet_dispatch.
+Print Assumptions C02_declaration_dispatch.
+Print Assumptions C02_read_peek_tokens.
+Print Assumptions C02_read_peek_nest.
+Print Assumptions C02_comments_attached_once_in_order_partial.
+Print Assumptions C02_comments_attached_once_in_order_nopragma.
+Print Assumptions C02_comments_attached_once_in_order_refuted.
+Print Assumptions C02_trailing_split.
